@@ -250,6 +250,8 @@ type e2eScript struct {
 	Variant  int      `json:"variant"`
 	BodyVar  int      `json:"body_var"`
 	StartID  int64    `json:"start_id"` // when set: the scripted call is issued with this request id
+	// DeadlineMs: the caller's context ends after this many ms (default 5000)
+	DeadlineMs int `json:"deadline_ms"`
 }
 
 type e2eResult struct {
@@ -259,6 +261,8 @@ type e2eResult struct {
 	Err      string   `json:"err,omitempty"`
 	Wire     []string `json:"wire"`
 	Broken   string   `json:"broken,omitempty"`
+	IsCtxErr bool     `json:"is_ctx_err"`
+	Ms       float64  `json:"ms"`
 }
 
 func runE2E(s e2eScript) (res e2eResult) {
@@ -291,11 +295,18 @@ func runE2E(s e2eScript) (res e2eResult) {
 	if s.StartID > 0 {
 		mcp.VerifSetNextRequestID(c, s.StartID)
 	}
-	ctx, cancel := context.WithTimeout(context.Background(), 5*time.Second)
+	dl := 5 * time.Second
+	if s.DeadlineMs > 0 {
+		dl = time.Duration(s.DeadlineMs) * time.Millisecond
+	}
+	ctx, cancel := context.WithTimeout(context.Background(), dl)
 	defer cancel()
 	req := &mcp.CallToolRequest{}
 	req.Params.Name = "x"
+	t0 := time.Now()
 	_, err = c.CallTool(ctx, req)
+	res.Ms = float64(time.Since(t0)) / float64(time.Millisecond)
+	res.IsCtxErr = err != nil && (errors.Is(err, context.DeadlineExceeded) || errors.Is(err, context.Canceled) || strings.Contains(err.Error(), "context deadline exceeded"))
 	res.Attempts = int(atomic.LoadInt32(&sn.attempts))
 	res.OK = err == nil
 	if err != nil {
